@@ -47,7 +47,7 @@ sPUBLIC  == <<80, 85, 66, 76, 73, 67>>
 sSYSTEM  == <<83, 89, 83, 84, 69, 77>>
 sScript  == <<115, 99, 114, 105, 112, 116>>
 
-NoTok == [k |-> "none", s |-> 0, e |-> 0, nm |-> <<0, 0>>, attrs |-> <<>>, sc |-> FALSE, tt |-> ""]
+NoTok == [k |-> "none", s |-> 0, e |-> 0, nm |-> <<0, 0>>, attrs |-> <<>>, sc |-> FALSE, tt |-> "", ns |-> "", ns1 |-> ""]
 
 TextStateOf(tt) ==
   CASE tt = "Data" -> "data" [] tt = "RCData" -> "rcdata" [] tt = "RawText" -> "rawtext"
@@ -83,7 +83,17 @@ EmitTag(sm, bytes, e) ==
                    ELSE TSEnd(sm.tb, nm))
              ELSE [tb |-> sm.tb, tt |-> "", cdata |-> sm.cdataOK, err |-> FALSE]
       tt2 == IF r.tt # "" THEN r.tt ELSE "Data"
-  IN [f EXCEPT !.toks = Append(@, tok), !.ts = e, !.tok = NoTok,
+      \* namespace of the element a start tag creates: svg / math open their namespace; an integration point
+      \* (its children are HTML) is itself an element of the enclosing foreign namespace; a tag that breaks
+      \* out of foreign content is an HTML element.  ns1 = the simulator's namespace after the tag (what
+      \* lol-html reports; differs from ns exactly at integration points, known finding S16).
+      before == IF sm.fb = "sim" THEN Cur(sm.tb) ELSE ""
+      after  == IF sm.fb = "sim" THEN Cur(r.tb) ELSE ""
+      ens == IF tok.k # "st" \/ sm.fb # "sim" THEN ""
+             ELSE IF before # "html" /\ after = "html" /\ Len(r.tb.ns) > Len(sm.tb.ns) THEN before
+             ELSE after
+      tok2 == [tok EXCEPT !.ns = ens, !.ns1 = IF tok.k = "st" THEN after ELSE ""]
+  IN [f EXCEPT !.toks = Append(@, tok2), !.ts = e, !.tok = NoTok,
                !.last = IF tok.k = "st" THEN nm ELSE @,
                !.tb = r.tb, !.cdataOK = r.cdata, !.tt = tt2, !.st = TextStateOf(tt2),
                !.err = IF r.err THEN "ambiguity" ELSE @, !.done = r.err]
